@@ -61,6 +61,10 @@ func TestC07(t *testing.T) {
 	for _, p := range []string{"", "AllowOverwrite", "DenyOverwrite"} {
 		alphaX = append(alphaX, Op{Kind: "regnode", ID: "f", NT: F, Policy: p, SameObj: true})
 	}
+	for _, p := range []string{"ExplicitEmpty", "BogusThenDeny"} {
+		alphaX = append(alphaX, Op{Kind: "regnode", ID: "f", NT: F, Policy: p}, Op{Kind: "regpipe", Type: "t0", Pid: "p0", IDs: []string{"f", "m", "k"}, Policy: p})
+	}
+	special := func(op Op) bool { return op.SameObj || op.Policy == "ExplicitEmpty" || op.Policy == "BogusThenDeny" }
 	prologue := []Op{{Kind: "regnode", ID: "f", NT: F}, {Kind: "regnode", ID: "m", NT: M}, {Kind: "regnode", ID: "k", NT: K}}
 	types := []string{"t0", "t1"}
 	depth := run.Pick(4, 5)
@@ -115,7 +119,7 @@ func TestC07(t *testing.T) {
 			return
 		}
 		for _, op := range alphaX {
-			recX(append(h, op), d, uses || op.SameObj)
+			recX(append(h, op), d, uses || special(op))
 		}
 	}
 	for d := 1; d <= 3; d++ {
